@@ -362,6 +362,50 @@ Proof. apply (run_invariant c (Inv c)); [apply Inv_step | apply Inv_init]. Qed.
 Lemma GInv_run c msgs k sched s : run c (init msgs k) sched = Some s -> GInv msgs s.
 Proof. apply (run_invariant c (GInv msgs)); [apply GInv_step | apply GInv_init]. Qed.
 
+(* ------------------------------------------------------------------ *)
+(* Invariant Q: the single producer.  The model has ONE producer ([prod], action [APush]): the socket reader of
+   the connection, which hands the messages over one after the other (tcp: Session.Run -> processBuffer ->
+   pushToReceivedMessageQueue; udp: the datagram reader -> Conn.Process), each hand-over completing before the
+   next begins.  Consequence, for every queue capacity and every schedule of the consumer loops, external callers
+   and the closer: at any moment the messages that have left the queue (in whatever state the loops hold them),
+   the queue content and the messages still to be pushed, in this order, are the arrival sequence; in particular
+   the queue is always a contiguous segment of the arrival sequence, in arrival order. *)
+
+Definition QInv (msgs : list Z) (s : st) : Prop := exists taken, msgs = taken ++ queue s ++ prod s.
+
+Lemma QInv_try_replace msgs s : QInv msgs s -> QInv msgs (try_replace s).
+Proof. unfold QInv. destruct (try_replace_fields s) as (-> & -> & _). auto. Qed.
+
+Lemma QInv_step c msgs s a s' : QInv msgs s -> step c s a = Some s' -> QInv msgs s'.
+Proof.
+  intros (taken & HQ) HS. apply step_Step in HS.
+  destruct HS as [m r Hp Hl | Hc | k He | l lp Hn Hpc Hd | l lp Hn Hpc Hcl | l lp m q Hn Hpc Hq
+                 | l lp m a Hn Hpc | l lp m a Hn Hpc | l lp m a Hn Hpc | l lp m ops a Hn Hpc
+                 | l lp m r ops a Hn Hpc | l lp m r ops a Hn Hpc Hdl | l lp a Hn Hpc];
+    try apply QInv_try_replace; unfold QInv; cbn; try (exists taken; exact HQ).
+  - (* push: the head of [prod] becomes the tail of the queue *)
+    exists taken. rewrite HQ, Hp, <- app_assoc. reflexivity.
+  - (* dequeue: the head of the queue joins [taken] *)
+    exists (taken ++ [m]). rewrite HQ, Hq, <- app_assoc. reflexivity.
+Qed.
+
+Lemma QInv_init msgs k : QInv msgs (init msgs k).
+Proof. exists []. reflexivity. Qed.
+
+Lemma QInv_run c msgs k sched s : run c (init msgs k) sched = Some s -> QInv msgs s.
+Proof. apply (run_invariant c (QInv msgs)); [apply QInv_step | apply QInv_init]. Qed.
+
+Theorem enqueue_in_order c msgs k sched s :
+  run c (init msgs k) sched = Some s ->
+  exists taken, msgs = taken ++ queue s ++ prod s /\
+                Permutation taken (map fst (log s) ++ held (loops s)).
+Proof.
+  intro HR. destruct (QInv_run _ _ _ _ _ HR) as (taken & HQ). exists taken. split; [exact HQ|].
+  pose proof (GInv_run _ _ _ _ _ HR) as HG. unfold GInv, Graw in HG. rewrite HQ in HG at 1.
+  rewrite (app_assoc (map fst (log s))) in HG.
+  eapply Permutation_app_inv_r. exact HG.
+Qed.
+
 (* a complete run: no thread can move (closing the connection, which is always possible, is not a move) *)
 Definition terminal (c : cfg) (s : st) : Prop := forall a, a <> AClose -> step c s a = None.
 
